@@ -20,6 +20,7 @@ func init() {
 			fr.i.path.abort(OutDropped, "empty range")
 		}
 		if lo == hi {
+			fr.i.path.varSeq[sanitize(a[0].(string))]++ // keep the numbering of named inputs in step with the native side
 			return int(lo)
 		}
 		return sym{types.Int, fr.i.path.NewVar(a[0].(string), 64, lo, hi, true)}
@@ -33,6 +34,7 @@ func init() {
 	externals[zz+"Byte"] = func(fr *frame, a []value) value {
 		lo, hi := a[1].(uint8), a[2].(uint8)
 		if lo == hi {
+			fr.i.path.varSeq[sanitize(a[0].(string))]++
 			return lo
 		}
 		v := fr.i.path.NewVar(a[0].(string), 8, int64(lo), int64(hi), false)
